@@ -147,6 +147,24 @@ func C14NestedCatalogue(tier string) []*Request {
 			}
 		}
 	}
+	// codecs that are no-ops on their own message (empty_behavior PRESERVE only, bytes BASE64, timestamp RFC3339, int64 STRING)
+	// but make the message a json.Marshaler: visible when ANOTHER codec hands the message to encoding/json
+	// (flatten child, flattened oneof variant, sibling map value of an unwrap map)
+	{
+		id := "ftndnoop"
+		pkg := id + ".v1"
+		leaf := pkg + ".Leaf"
+		prof := M("Profile", F("display_name", 1, "string"), F("follower_count", 2, "int64"), F("meta", 3, "", Msg(leaf), Empty("PRESERVE")))
+		blob := M("Blob", F("raw_data", 1, "bytes", BytesEnc("BASE64")), F("big_count", 2, "int64"))
+		stamp := M("Stamp", F("made_at", 1, "", Msg(Timestamp), TsFmt("RFC3339")), F("big_count", 2, "int64"))
+		r := c14RequestOf(id, []*Message{prof, blob, stamp,
+			M("Account", F("aid", 1, "string"), F("profile", 2, "", Msg(pkg+".Profile"), Flatten(true))),
+			M("Holder", F("hid", 1, "string"), F("blob", 2, "", Msg(pkg+".Blob"), Flatten(true), FlattenPrefix("b_")), F("stamp", 3, "", Msg(pkg+".Stamp"), Flatten(true), FlattenPrefix("s_"))),
+			M("Pick", F("pid", 1, "string"), F("profile", 2, "", Msg(pkg+".Profile"), InOneof("c")), F("blob", 3, "", Msg(pkg+".Blob"), InOneof("c"))).
+				WithOneofs(&Oneof{Name: "c", HasConfig: true, Discriminator: "kind", Flatten: true})})
+		r.Tags = append(r.Tags, "noop-codecs")
+		out = append(out, r)
+	}
 	// flatten below flatten, with and without prefixes at either level (the decoder enumerates the inlined keys)
 	{
 		id := "ftndflatnest"
